@@ -79,8 +79,6 @@ type state struct {
 	live    map[int]ep // the property's own view: live endpoints
 	renamed bool       // a live endpoint changed its interface name earlier in this case
 	batched bool       // a CompleteDeferredWork with >=2 distinct pending ids happened earlier in this case
-	ref         *refMgr  // Go port of the model of the CURRENT code (classification of known findings only)
-	refDiverged bool     // the real manager has left the behaviour of the current code in this case
 	dead        bool     // the real code panicked earlier in this case
 	history     []string // ops of this case so far
 }
@@ -218,38 +216,12 @@ func (s *state) dump() string {
 
 // oracle: each interface name carries exactly the state of its preferred (smallest-id) live endpoint,
 // routes only for admin-up endpoints, nothing for names no live endpoint uses.
-// label names the shape of a failure that the current code is known to produce after a rename:
-// d1 = the preferred endpoint is still shadowed (nobody promoted it when the holder renamed away),
-// d3 = state left on the OLD interface of an endpoint that was renamed onto a held interface,
-// cascade = a longer combination of the two.
-func (s *state) label(name int, pref map[int]int) string {
-	if owner, ok := s.ref.ifaceToID[name]; ok {
-		if cur, live := s.live[owner]; live && cur.name != name {
-			return "d3"
-		}
-	}
-	if id, ok := pref[name]; ok {
-		if a, act := s.ref.active[id]; act && a.name != name {
-			return "d3" // the preferred endpoint is still active under its OLD interface name
-		}
-		if _, sh := s.ref.shadowed[id]; sh {
-			return "d1"
-		}
-	}
-	return "cascade"
-}
-
-func (s *state) oracle(h *rt.H, op string, explained bool) {
+func (s *state) oracle(h *rt.H, op string) {
+	// the suffix only says what kind of history the case had so far; no KNOWN-FINDING matches any of them
 	suffix := ":norename"
-	if s.renamed && !explained {
-		// after a rename, but NOT what the current code (with its known rename defects D1/D3) does here
-		suffix = ":rename-unexplained"
-	} else if s.renamed {
-		suffix = ":rename-"
+	if s.renamed {
+		suffix = ":rename"
 	} else if s.batched {
-		// rename-free, but several updates were pending at once.  Proved correct for the fixed code
-		// (iface_state_eq_spec_batches_partial); before the D4 fix a promotion could overwrite a pending
-		// entry here.  Any failure with this suffix is a regression (no KNOWN-FINDING matches it).
 		suffix = ":batch"
 	}
 	pref := map[int]int{}
@@ -266,12 +238,7 @@ func (s *state) oracle(h *rt.H, op string, explained bool) {
 		}
 		return map[string]any{"op": op, "live": join(lv), "dump": s.dump(), "history": strings.Join(s.history, "; ")}
 	}
-	sfx := func(name int) string {
-		if suffix == ":rename-" {
-			return suffix + s.label(name, pref)
-		}
-		return suffix
-	}
+	sfx := func(name int) string { return suffix }
 	for name, id := range pref {
 		e := s.live[id]
 		want := "down"
@@ -329,7 +296,6 @@ func exec(h *rt.H, s *state, op string) (out string) {
 			}
 		}()
 	}
-	pend := map[int]*ep{}
 	switch w[0] {
 	case "new":
 		s.filter = &mockTable{chains: map[string]*generictables.Chain{}}
@@ -352,12 +318,11 @@ func exec(h *rt.H, s *state, op string) (out string) {
 		s.live = map[int]ep{}
 		s.renamed = false
 		s.batched = false
-		s.ref, s.refDiverged, s.dead, s.history = newRef(), false, false, nil
+		s.dead, s.history = false, nil
 		return s.dump()
 	case "up":
 		id := atoi(w[1])
 		e := ep{name: atoi(w[2]), up: w[3] != "0", data: atoi(w[4])}
-		pend[id] = &e
 		if old, ok := s.live[id]; ok && old.name != e.name {
 			s.renamed = true
 			h.Count("rename")
@@ -366,7 +331,6 @@ func exec(h *rt.H, s *state, op string) (out string) {
 		s.live[id] = e
 	case "rm":
 		id := atoi(w[1])
-		pend[id] = nil
 		s.m.OnUpdate(&proto.WorkloadEndpointRemove{Id: wid(id)})
 		delete(s.live, id)
 	case "batch":
@@ -381,12 +345,10 @@ func exec(h *rt.H, s *state, op string) (out string) {
 			ids[id] = true
 			if f[0] == "u" {
 				e := ep{name: atoi(f[2]), up: f[3] != "0", data: atoi(f[4])}
-				pend[id] = &e
-				s.m.OnUpdate(&proto.WorkloadEndpointUpdate{Id: wid(id), Endpoint: mkEp(id, e)})
+						s.m.OnUpdate(&proto.WorkloadEndpointUpdate{Id: wid(id), Endpoint: mkEp(id, e)})
 				s.live[id] = e
 			} else {
-				pend[id] = nil
-				s.m.OnUpdate(&proto.WorkloadEndpointRemove{Id: wid(id)})
+						s.m.OnUpdate(&proto.WorkloadEndpointRemove{Id: wid(id)})
 				delete(s.live, id)
 			}
 		}
@@ -415,25 +377,7 @@ func exec(h *rt.H, s *state, op string) (out string) {
 		return "err:complete"
 	}
 	out = s.dump()
-	// advance the reference (current-code semantics); with several pending updates take the processing order
-	// that reproduces what the real manager did
-	explained := false
-	if !s.refDiverged {
-		var match *refMgr
-		for _, o := range s.ref.outcomes(pend, 0) {
-			if o.dump() == out {
-				match = o
-				break
-			}
-		}
-		if match != nil {
-			s.ref, explained = match, true
-		} else {
-			s.refDiverged = true
-			h.Count("ref:diverged")
-		}
-	}
-	s.oracle(h, op, explained)
+	s.oracle(h, op)
 	if strings.Contains(out, "S[-]") {
 		h.Count("shadowed:none")
 	} else {
